@@ -3,6 +3,7 @@ package rules
 import (
 	"go/ast"
 	"go/types"
+	"reflect"
 	"strings"
 
 	"golang.org/x/tools/go/packages"
@@ -91,6 +92,7 @@ func c06JWT(c *core.Ctx) {
 			cons = sprintf("%s|key function #%d", name, perFunc[name])
 		}
 		c06Keyfunc(c, rule, cons, s.f, s.call, s.kf)
+		c06Claims(c, rule, name, s.f, s.call)
 		c06ParseVerdict(c, rule, name, s.f, s.call)
 	}
 }
@@ -341,4 +343,113 @@ func c06ParseVerdict(c *core.Ctx, rule, name string, f *flow.Func, parse *ast.Ca
 	} else {
 		c.Discharge(rule, cons, pos(c, parse), sprintf("%d exits: accept only with the parser's error nil", n))
 	}
+}
+
+// c06Claims: the claims container handed to the jwt parser must be able to hold every form
+// RFC 7519 allows for the registered claims (aud: string or array of strings; exp/nbf/iat:
+// NumericDate, possibly non-integer). The untyped Parse (MapClaims) and map containers are;
+// a struct whose `aud` field is a plain string or whose date fields are integers is not —
+// decided from the Go types of the struct fields carrying those json names.
+func c06Claims(c *core.Ctx, rule, name string, f *flow.Func, parse *ast.CallExpr) {
+	cons := name + "|claims container admits every RFC 7519 form of the registered claims"
+	fnObj, _ := f.Callee(parse).(*types.Func)
+	if fnObj == nil {
+		return
+	}
+	sig := fnObj.Type().(*types.Signature)
+	var arg ast.Expr
+	for i := 0; i < sig.Params().Len() && i < len(parse.Args); i++ {
+		if n, ok := sig.Params().At(i).Type().(*types.Named); ok && c06IsJWTPkg(n.Obj().Pkg()) && n.Obj().Name() == "Claims" {
+			arg = parse.Args[i]
+		}
+	}
+	if arg == nil {
+		c.Discharge(rule, cons, pos(c, parse), "parsed with the untyped "+fnObj.Name()+" (claims held in a map)")
+		return
+	}
+	defs := c06SingleDefs(f, f.Body)
+	r := c06Resolve(f, defs, arg)
+	tv, ok := f.Info.Types[r]
+	if !ok || tv.Type == nil {
+		c.Undecide(rule, cons, pos(c, arg), "cannot type the claims argument")
+		return
+	}
+	t := tv.Type
+	if p, ok := t.Underlying().(*types.Pointer); ok {
+		t = p.Elem()
+	}
+	switch u := t.Underlying().(type) {
+	case *types.Map:
+		c.Discharge(rule, cons, pos(c, arg), "claims are unmarshalled into a map ("+types.TypeString(t, nil)+")")
+		return
+	case *types.Struct:
+		bad := c06NarrowClaim(u, map[*types.Struct]bool{})
+		if bad != "" {
+			c.Violate(rule, cons, pos(c, arg), "the token's claims are unmarshalled into "+types.TypeString(t, nil)+", whose "+bad+": a correctly signed, currently valid token using the other form RFC 7519 allows fails to parse and is rejected with 401")
+		} else {
+			c.Discharge(rule, cons, pos(c, arg), "no registered-claim field of "+types.TypeString(t, nil)+" narrows the RFC 7519 forms")
+		}
+		return
+	}
+	c.Undecide(rule, cons, pos(c, arg), "claims container of type "+types.TypeString(tv.Type, nil)+" is neither a map nor a struct")
+}
+
+// c06NarrowClaim inspects the fields (embedded structs included) carrying the json names
+// aud / exp / nbf / iat and describes the first one whose Go type cannot hold every RFC form.
+func c06NarrowClaim(st *types.Struct, seen map[*types.Struct]bool) string {
+	if seen[st] {
+		return ""
+	}
+	seen[st] = true
+	hasUnmarshal := func(t types.Type) bool {
+		for _, tt := range []types.Type{t, types.NewPointer(t)} {
+			ms := types.NewMethodSet(tt)
+			for i := 0; i < ms.Len(); i++ {
+				if ms.At(i).Obj().Name() == "UnmarshalJSON" {
+					return true
+				}
+			}
+		}
+		return false
+	}
+	for i := 0; i < st.NumFields(); i++ {
+		fld := st.Field(i)
+		ft := fld.Type()
+		if p, ok := ft.Underlying().(*types.Pointer); ok {
+			ft = p.Elem()
+		}
+		tag := reflectTagC06(st.Tag(i), "json")
+		jsonName := strings.Split(tag, ",")[0]
+		if fld.Embedded() && jsonName == "" {
+			if inner, ok := ft.Underlying().(*types.Struct); ok && !hasUnmarshal(ft) {
+				if bad := c06NarrowClaim(inner, seen); bad != "" {
+					return bad
+				}
+			}
+			continue
+		}
+		if jsonName == "" {
+			jsonName = fld.Name()
+		}
+		if hasUnmarshal(ft) {
+			continue
+		}
+		switch strings.ToLower(jsonName) {
+		case "aud":
+			if b, ok := ft.Underlying().(*types.Basic); ok && b.Info()&types.IsString != 0 {
+				return "`aud` field " + fld.Name() + " is a plain string (RFC 7519 §4.1.3 allows an array of strings)"
+			}
+		case "exp", "nbf", "iat":
+			if b, ok := ft.Underlying().(*types.Basic); ok && b.Info()&types.IsInteger != 0 {
+				return "`" + strings.ToLower(jsonName) + "` field " + fld.Name() + " is an integer (a NumericDate may be non-integer, RFC 7519 §2)"
+			}
+		}
+	}
+	return ""
+}
+
+// reflectTagC06 extracts a key from a struct tag (reflect.StructTag.Get without reflect's
+// conventions being violated: the tag syntax is the standard one).
+func reflectTagC06(tag, key string) string {
+	return reflect.StructTag(tag).Get(key)
 }
